@@ -145,7 +145,8 @@ def _eval_node(node: ast.AST, context: dict[str, Any]) -> Any:
             try:
                 if not op_func(left, right):
                     return False
-            except TypeError as e:
+            except (TypeError, ValueError) as e:
+                # ValueError: e.g. `300 in b"x"` ("byte must be in range(0, 256)")
                 raise ExpressionError(
                     f"Cannot compare {type(left).__name__} and {type(right).__name__} with {type(op).__name__}: {e}"
                 ) from e
